@@ -49,7 +49,10 @@ pub fn gen_flow(
                 ..generate(expr_or_stmt, &env.raises_caught(&raises), ctx, constr)?
             };
 
-            constrain_cases(ast, &None, cases, &outer_env, ctx, constr)
+            // no arm runs when the handled expression does not raise: what only the arms assign to is
+            // not assigned to afterwards
+            let arms_env = constrain_cases(ast, &None, cases, &outer_env, ctx, constr)?;
+            Ok(arms_env.union(&outer_env))
         }
 
         Node::IfElse {
